@@ -233,3 +233,103 @@ c11_written!(c11_all_written_f64, f64);
 //@ bounds: as c11_all_written_f64
 //@ assumes: libm::logf/expf replaced by free stubs
 c11_written!(c11_all_written_f32, f32);
+
+// ------------------------------------------------------------------------------------------
+// method switch and chain length for vectors longer than the all-bit-patterns harnesses reach: all entries 0.09
+// except one entry of arbitrary value at an arbitrary position.  Beta method iff that entry is <= 0.1 too;
+// sampler counts and sample_len follow the length.
+// ------------------------------------------------------------------------------------------
+macro_rules! c11_new_long {
+    ($name:ident, $f:ty, $l:expr) => {
+        vproof_lite! {
+            #[kani::unwind(23)]
+            fn $name() {
+                let k: usize = kani::any();
+                let a: $f = kani::any();
+                kani::assume(k < $l);
+                kani::assume(a >= 1e-3 && a <= 1e4);
+                let mut alpha: [$f; $l] = [0.09; $l];
+                alpha[k] = a;
+                let r = Dirichlet::<$f>::new(&alpha);
+                vassert!(r.is_ok(), "Dirichlet::new rejects a vector of positive, finite, normal entries");
+                if let Ok(d) = r {
+                    vassert!(d.sample_len() == $l, "Dirichlet::sample_len differs from alpha.len()");
+                    match &d.repr {
+                        DirichletRepr::FromBeta(b) => {
+                            vassert!(a <= 0.1, "Dirichlet: Beta method chosen although some alpha > 0.1");
+                            vassert!(b.samplers.len() == $l - 1, "Dirichlet(FromBeta): wrong number of Beta samplers");
+                            // every first Beta parameter is <= 0.1, so min(alpha, beta) <= 1: algorithm BC, whatever the tail sum
+                            let mut i = 0;
+                            while i < $l - 1 {
+                                vassert!(crate::beta::__verif::beta_is_bc(&b.samplers[i]), "Dirichlet(FromBeta): a Beta(alpha_i <= 0.1, tail) sampler uses algorithm BB (for min > 1)");
+                                i += 1;
+                            }
+                        }
+                        DirichletRepr::FromGamma(g) => {
+                            vassert!(!(a <= 0.1), "Dirichlet: Gamma method chosen although all alpha <= 0.1");
+                            vassert!(g.samplers.len() == $l, "Dirichlet(FromGamma): wrong number of Gamma samplers");
+                        }
+                    }
+                    core::mem::forget(d);
+                }
+                kani::cover!(a <= 0.1, "all small");
+                kani::cover!(a > 0.1, "one large");
+            }
+        }
+    };
+}
+//@ id: c11_new_f32_l17
+//@ prop: C11
+//@ tier: quick
+//@ cap: 900
+//@ funcs: Dirichlet::<f32>::new; DirichletFromBeta::new; DirichletFromGamma::new
+//@ bounds: length 17; sixteen entries 0.09 (tail sums cross 1), one entry of any value in [1e-3, 1e4] at any position
+//@ assumes: libm::sqrtf by (class) contract
+c11_new_long!(c11_new_f32_l17, f32, 17);
+//@ id: c11_new_f64_l17
+//@ besteffort: yes
+//@ prop: C11
+//@ tier: thorough
+//@ cap: 1500
+//@ funcs: Dirichlet::<f64>::new; DirichletFromBeta::new; DirichletFromGamma::new
+//@ bounds: as c11_new_f32_l17
+//@ assumes: libm::sqrt by (class) contract
+c11_new_long!(c11_new_f64_l17, f64, 17);
+
+// ------------------------------------------------------------------------------------------
+// stick-breaking over 4 components with *value-free* libm stubs: ln returns any finite value, exp any value in
+// [0, +inf].  Whatever the Beta acceptance tests decide and whatever w = a * exp(v) is, every component must be
+// a number in [0, 1] and written.  (A counterexample here uses libm values the real functions may not return:
+// if it does not reproduce natively the check ends INCONCLUSIVE, not VIOLATION.)
+// ------------------------------------------------------------------------------------------
+fn v_ln32(_x: f32) -> f32 { let r: f32 = kani::any(); kani::assume(r == r && r > f32::NEG_INFINITY && r < f32::INFINITY); r }
+fn v_exp32(_x: f32) -> f32 { let r: f32 = kani::any(); kani::assume(r >= 0.0); r }
+//@ id: c11_simplex_free_f32_l4
+//@ prop: C11
+//@ tier: quick
+//@ cap: 900
+//@ funcs: DirichletFromBeta::<f32>::sample_to_slice; Beta::<f32>::sample (BC); Dirichlet::new
+//@ bounds: alpha = [0.05, 0.02, 0.03, 0.04]; every word; all three Beta variates accepted at their first trial (6 words); buffer pre-filled with NaN
+//@ assumes: libm::logf replaced by an arbitrary finite value, libm::expf by an arbitrary value in [0, +inf] (over-approximation of the real functions)
+#[kani::proof]
+#[kani::stub(libm::logf, v_ln32)]
+#[kani::stub(libm::expf, v_exp32)]
+#[kani::unwind(6)]
+fn c11_simplex_free_f32_l4() {
+    let mut rng = SymRng::new(6);
+    let alpha: [f32; 4] = [0.05, 0.02, 0.03, 0.04];
+    let d = match Dirichlet::<f32>::new(&alpha) { Ok(d) => d, Err(_) => return };
+    let mut out: [f32; 4] = [f32::NAN; 4];
+    d.sample_to_slice(&mut rng, &mut out);
+    let mut i = 0;
+    while i < 4 {
+        vassert!(out[i] == out[i], "Dirichlet sample has a NaN / unwritten component");
+        vassert!(out[i] >= 0.0 && out[i] <= 1.0, "Dirichlet component outside [0, 1]");
+        i += 1;
+    }
+    vassert!(rng.pos == 6, "Dirichlet(stick-breaking, 4 components): three accepted Beta trials consume 6 words");
+    kani::cover!(out[0] == 1.0, "stick used up by the first component");
+    kani::cover!(out[0] > 0.0 && out[0] < 1.0 && out[3] > 0.0, "interior point");
+    core::mem::forget(d);
+}
+
